@@ -132,6 +132,34 @@ func CoalCancelHist(idx, proto, variant int) *Hist {
 	return h
 }
 
+// TempErrHist is one history of the temporary-read-error family.
+func TempErrHist(idx, proto, nerr, cutClass, victim, callers int) *Hist {
+	h := &Hist{Index: idx, Proto: proto, TimeoutMs: 5000, TempErr: true, TempErrN: nerr, CutClass: cutClass, Victim: victim,
+		Coalesce: idx%2 == 0}
+	h.Fates = make([]Fate, callers)
+	h.CModes = make([]CMode, callers)
+	return h
+}
+
+// TimeoutLimitHist is one history run with gocql.TimeoutLimit = limit (see RunAllLimit).
+func TimeoutLimitHist(idx, proto, limit, callers, idleMs int) *Hist {
+	h := &Hist{Index: idx, Proto: proto, TimeoutMs: 50, TimeoutLimit: limit, IdleMs: idleMs, WatchdogMs: 6000}
+	h.Fates = make([]Fate, callers)
+	h.CModes = make([]CMode, callers)
+	for i := range h.Fates {
+		h.Fates[i] = FNever
+	}
+	return h
+}
+
+// RunAllLimit runs a group of histories with the package variable gocql.TimeoutLimit set to limit.
+func RunAllLimit(hs []*Hist, par, perturb int, limit int64) []*Report {
+	old := gocql.TimeoutLimit
+	gocql.TimeoutLimit = limit
+	defer func() { gocql.TimeoutLimit = old }()
+	return runAll(hs, par, perturb, false)
+}
+
 // Term prints the report's logs as a Coq term of type C01.Corr.case.
 func (rep *Report) Term() string {
 	var logs []string
@@ -186,8 +214,12 @@ func (rep *Report) NEvents() int {
 }
 
 // RunAll runs the histories with bounded parallelism and returns the reports in order.
-func RunAll(hs []*Hist, par, perturb int) []*Report {
-	gocql.VerifConnTraceStart(perturb)
+func RunAll(hs []*Hist, par, perturb int) []*Report { return runAll(hs, par, perturb, true) }
+
+func runAll(hs []*Hist, par, perturb int, start bool) []*Report {
+	if start {
+		gocql.VerifConnTraceStart(perturb)
+	}
 	out := make([]*Report, len(hs))
 	sem := make(chan struct{}, par)
 	var wg sync.WaitGroup
@@ -217,6 +249,10 @@ func Emit(o *hlib.Out, reps []*Report) {
 			kind = "stall-midbody"
 		case h.CoalCancel:
 			kind = "coalescer-cancel"
+		case h.TempErr:
+			kind = "temp-read-error"
+		case h.TimeoutLimit > 0:
+			kind = "timeout-limit"
 		case h.Handshake != 0:
 			kind = "handshake-failure"
 		case h.Event != EvNone:
@@ -243,6 +279,13 @@ func Emit(o *hlib.Out, reps []*Report) {
 		events += rep.NEvents()
 		wall += rep.WallMs
 	}
+	var notes []string
+	for _, rep := range reps {
+		if rep.Note != "" && len(notes) < 40 {
+			notes = append(notes, fmt.Sprintf("hist %d: %s", rep.Hist.Index, rep.Note))
+		}
+	}
+	o.Extra["scenario_notes"] = notes
 	o.Extra["outcome_classes"] = classes
 	o.Extra["events_replayed"] = events
 	o.Extra["setup_failed"] = setupErrs
